@@ -302,7 +302,8 @@ func (c *fakeCloud) DescribeNetworkInterface(ctx context.Context, vpcID string, 
 // records: 1 addpod name uid node kind ttlSecs owned | 2 exitpod name | 3 delpod name | 4 reconcile-pod name nf (kind outcome)* |
 //          5 reconcile-podeni name nf (kind outcome)* | 6 gc-records | 7 gc-interfaces | 8 advance secs |
 //          9 foreign-interface tags ageSecs status | 10 api-fault what | 11 hold-next-attach | 12 release-attach
-// kind of a pod: 0 elastic, 1 fixed TTL, 2 fixed Never, 3 two interfaces Never + TTL, 4 two interfaces TTL + Never, 5 not using per-pod interfaces
+// kind of a pod: 0 elastic, 1 fixed TTL, 2 fixed Never, 3 two interfaces Never + TTL, 4 two interfaces TTL + Never, 5 not using per-pod interfaces,
+//                6 two interfaces Elastic + fixed TTL, 7 two interfaces fixed Never + Elastic
 // output per step (4 5 6 7 12): 88 step name err now(s) npods (name uid node exited kind)* nrec (name phase uid node deleting finalizer
 //          nalloc (eni ip fixed strategy ttl)* lastSeenAge)* ncalls (len call..)* npre (eni inuse member tags age)* ncloud (..)*   (pre = the cloud when the step began)
 
@@ -350,6 +351,10 @@ func podNetworks(kind, ttl int) string {
 		return `{"podNetworks":[` + one("eth0", never) + `]}`
 	case 3:
 		return `{"podNetworks":[` + one("eth0", never) + "," + one("eth1", ttlT) + `]}`
+	case 6: // an elastic interface beside a fixed one
+		return `{"podNetworks":[` + one("eth0", `{"type":"Elastic"}`) + "," + one("eth1", ttlT) + `]}`
+	case 7:
+		return `{"podNetworks":[` + one("eth0", never) + "," + one("eth1", `{"type":"Elastic"}`) + `]}`
 	default:
 		return `{"podNetworks":[` + one("eth0", ttlT) + "," + one("eth1", never) + `]}`
 	}
@@ -674,9 +679,9 @@ func gen(r *hx.Rand) [][]*big.Int {
 		kind := map[int]int{}
 		ttl := map[int]int{}
 		for p := 1; p <= npods; p++ {
-			kind[p] = []int{0, 0, 1, 1, 2, 3, 4}[r.Intn(7)]
+			kind[p] = []int{0, 0, 1, 1, 2, 3, 4, 6, 7}[r.Intn(9)]
 			if prop == "C11" {
-				kind[p] = []int{0, 1, 1, 2, 3, 4, 4}[r.Intn(7)]
+				kind[p] = []int{0, 1, 1, 2, 3, 4, 4, 6, 7}[r.Intn(9)]
 			}
 			ttl[p] = []int{60, 300, 900}[r.Intn(3)]
 		}
@@ -727,7 +732,7 @@ func gen(r *hx.Rand) [][]*big.Int {
 					drive(p)
 				}
 			case x < 30:
-				if alive[p] && kind[p] >= 1 && kind[p] <= 4 && r.Chance(1, 3) {
+				if alive[p] && kind[p] >= 1 && kind[p] != 5 && r.Chance(1, 3) {
 					// the collector sees the pod some time after it last stamped the record, the pod goes away soon afterwards,
 					// the collector passes again: the TTL counts from the pass that saw the pod
 					recs = append(recs, []int{8, []int{70, 100, 200}[r.Intn(3)]}, []int{6}, []int{8, 20 + r.Intn(30)}, []int{3, p}, []int{4, p, 0}, []int{5, p, 0}, []int{5, p, 0}, []int{6})
